@@ -429,6 +429,23 @@ def args2list(max_shape, shapes, *args):
     return map(args2vals, zip(*it))
 
 
+def _broadcast_eval(func, args):
+    # Element-wise evaluation for more arguments than np.vectorize accepts.
+    try:
+        shape = np.broadcast_shapes(*(np.shape(a) for a in args))
+    except ValueError:
+        raise BroadcastError()
+    it = [
+        np.broadcast_to(a, shape) if isinstance(a, np.ndarray) else None
+        for a in args
+    ]
+    res = np.empty(shape or (1, 1), object)
+    for i in np.ndindex(*shape):
+        v = func(*(a if b is None else b[i] for a, b in zip(args, it)))
+        res[i if shape else (0, 0)] = v
+    return res
+
+
 _re_float = re.compile(r'^\s*[+-]?(\d+\.?\d*|\.\d+)(E[+-]?\d+)?\s*$', re.I | re.A)
 
 
@@ -465,16 +482,7 @@ def wrap_ufunc(
             args = tuple(args_parser(*args))
             with np.errstate(divide='ignore', invalid='ignore'):
                 if len(args) >= 32:
-                    shapes = [np.shape(arg) for arg in args]
-                    max_shape = max((s or (1,))[0] for s in shapes)
-                    if max_shape == 1:
-                        res = np.asarray([[
-                            safe_eval(*args2vals(args))
-                        ]], object).view(otype)
-                    else:
-                        res = np.asarray([safe_eval(*v) for v in args2list(
-                            max_shape, shapes, *args
-                        )], object).view(otype)
+                    res = _broadcast_eval(safe_eval, args).view(otype)
                 else:
                     res = np.vectorize(safe_eval, **kw)(*args)
             try:
